@@ -18,7 +18,7 @@ ASSUMPTIONS = ["as C07 (exact rationals; tolerance 2^-20 for mean / wmean / std)
 
 
 def histories(rng, tier):
-    n = 90 if tier == 'quick' else 1500
+    n = 250 if tier == 'quick' else 1500
     out = []
     for _ in range(n):
         kind = rng.choice(['flt', 'flt', 'int', 'int', 'rec', 'wide'])
